@@ -1,8 +1,11 @@
 /-
   C02 — Formatting is idempotent: property theorems on the L4 model, fragment F0, every printer
-  option except KeepPadding.
+  option except KeepPadding.  Negative: the all-options statement is false (two recorded defects,
+  both with default options).  Positive: with SingleLine the second pass is byte-identical, on all
+  of F0 and for every other option (`idempotent_singleLine`).
 -/
-import ShVerif.Proofs.L4Parse
+import ShVerif.Proofs.L4PrintGen
+import ShVerif.Proofs.L4Single
 namespace ShVerif.Props.C02
 open ShVerif ShVerif.L4
 
@@ -81,10 +84,134 @@ theorem closingParen_second :
   decide +kernel
 
 
+/-! ## SingleLine: the second pass is byte-identical
+
+  Under SingleLine the printer consults no position: on F0 its output is a function of the norm of
+  the tree (`L4.printFile_singleLine`, proved by running the model printer on an abstraction of
+  its state).  The first pass parses back to a tree with the same norm (`L4.roundtrip_gen`, the
+  C01 round trip), hence the second pass writes the same bytes.  No hypothesis on the re-parsed
+  tree is needed. -/
+
+theorem safe_ne_bs : ∀ b : UInt8, isSafe b = true → (b != 92) = true := by
+  apply u8_forall; decide +kernel
+
+theorem normParts_plain : ∀ parts : List WordPart, (∀ p ∈ parts, p.wf = true) →
+    (normParts parts).all NPart.plain = true
+  | [], _ => rfl
+  | .sgl l r v :: rest, h => by
+    have ih := normParts_plain rest (fun p hp => h p (by simp [hp]))
+    simp only [normParts, List.all_cons, NPart.plain, Bool.true_and]
+    exact ih
+  | .lit a e v :: rest, h => by
+    have ih := normParts_plain rest (fun p hp => h p (by simp [hp]))
+    have hv : v.all (· != 92) = true := by
+      have := h (.lit a e v) (by simp)
+      simp only [WordPart.wf, Bool.and_eq_true, List.all_eq_true] at this
+      exact List.all_eq_true.mpr (fun b hb => safe_ne_bs b (this.2 b hb))
+    simp only [normParts]
+    split
+    · rename_i v' r hr
+      rw [hr] at ih
+      simp only [List.all_cons, NPart.plain, Bool.and_eq_true] at ih
+      simp only [List.all_cons, NPart.plain, List.all_append, Bool.and_eq_true]
+      exact ⟨⟨hv, ih.1⟩, ih.2⟩
+    · simp only [List.all_cons, NPart.plain, Bool.and_eq_true]
+      exact ⟨hv, ih⟩
+
+theorem word_wf_ok (w : Word) (h : w.wf = true) : nwordOk w.norm = true := by
+  have hne := Word.wf_parts_ne h
+  have hparts : ∀ p ∈ w.parts, p.wf = true := by
+    unfold Word.wf at h
+    simp only [Bool.and_eq_true, List.all_eq_true] at h
+    exact h.2
+  simp only [nwordOk, Bool.and_eq_true, Bool.not_eq_true', List.isEmpty_eq_false_iff]
+  refine ⟨fun e => hne (normParts_nil e), normParts_plain w.parts hparts⟩
+
+mutual
+theorem stmt_wf_ok : ∀ s : Stmt, s.wf = true → s.norm.ok = true
+  | .mk _ _ _ _ c, h => by
+    simp only [Stmt.wf, Bool.and_eq_true] at h
+    simpa [Stmt.norm, NStmt.ok] using cmd_wf_ok c h.1
+theorem cmd_wf_ok : ∀ c : Cmd, c.wf = true → c.norm.ok = true
+  | .call args, h => by
+    cases args with
+    | nil => simp [Cmd.wf] at h
+    | cons w rest =>
+      simp only [Cmd.wf, Bool.and_eq_true, List.all_eq_true] at h
+      simp only [Cmd.norm, NCmd.ok, List.map_cons, List.isEmpty_cons, Bool.not_false, Bool.true_and, List.all_cons,
+        Bool.and_eq_true, List.all_eq_true, List.mem_map, forall_exists_index, and_imp, forall_apply_eq_imp_iff₂]
+      exact ⟨word_wf_ok w (h.1 w (by simp)), fun x hx => word_wf_ok x (h.1 x (by simp [hx]))⟩
+  | .subshell _ _ ss, h => by
+    simp only [Cmd.wf, Bool.and_eq_true, decide_eq_true_eq] at h
+    cases ss with
+    | nil => simp [Stmts.length] at h
+    | cons s r => simpa [Cmd.norm, Stmts.norm, NCmd.ok] using stmts_wf_ok (.cons s r) h.2
+  | .block _ _ ss, h => by
+    simp only [Cmd.wf, Bool.and_eq_true, decide_eq_true_eq] at h
+    cases ss with
+    | nil => simp [Stmts.length] at h
+    | cons s r => simpa [Cmd.norm, Stmts.norm, NCmd.ok] using stmts_wf_ok (.cons s r) h.2
+  | .binary _ _ x y, h => by
+    simp only [Cmd.wf, Bool.and_eq_true] at h
+    simp only [Cmd.norm, NCmd.ok, Bool.and_eq_true]
+    exact ⟨stmt_wf_ok x h.1.1.1.1, stmt_wf_ok y h.1.1.1.2⟩
+theorem stmts_wf_ok : ∀ ss : Stmts, ss.wf = true → ss.norm.ok = true
+  | .nil, _ => rfl
+  | .cons s r, h => by
+    obtain ⟨h1, h2⟩ := Stmts.wf_cons h
+    simp only [Stmts.norm, NStmts.ok, Bool.and_eq_true]
+    exact ⟨stmt_wf_ok s h1, stmts_wf_ok r h2⟩
+end
+
+/-- **Idempotence under SingleLine** (all of F0, every other option, every variant): if a
+    well-formed tree with monotone positions prints as `b` and `b` parses to `f'`, then `f'`
+    prints as `b` again. -/
+theorem idempotent_singleLine (o : Opts) (l : Lang) (f f' : File) (b : Bytes) (hsl : o.singleLine = true)
+    (hwf : f.wf = true) (hmono : posMono f) (hne : f.stmts ≠ .nil)
+    (hp : printFile o f = .ok b) (hq : parse l b = .ok f') : printFile o f' = .ok b := by
+  have hmn : o.minify = false := by
+    cases hm : o.minify with
+    | false => rfl
+    | true =>
+      unfold printFile at hp
+      simp [refuse, hm, hsl] at hp
+  obtain ⟨f'', h1, h2⟩ := roundtrip_gen o l f b hwf hmono hne hp
+  rw [hq] at h1
+  cases h1
+  have hok : f.norm.ok = true := stmts_wf_ok f.stmts hwf
+  have hne' : f'.stmts ≠ .nil := by
+    intro e
+    have : f'.norm = .nil := by simp [File.norm, e, Stmts.norm]
+    rw [h2] at this
+    obtain ⟨ss⟩ := f
+    cases ss with
+    | nil => exact hne rfl
+    | cons s r => simp [File.norm, Stmts.norm] at this
+  rw [printFile_singleLine o hsl hmn f' (by rw [h2]; exact hok) hne', h2,
+    ← printFile_singleLine o hsl hmn f hok hne]
+  exact hp
+
+/-- for instance the witness of C02-subshell-trailing-blank is stable under SingleLine: it prints
+    `( (s) )`, and so does the second pass -/
+theorem trailingBlank_singleLine :
+    printFile { singleLine := true } trailingBlankWitness = .ok (bytesOfString "( (s) )\n") ∧
+    reprint { singleLine := true } .bash (bytesOfString "( (s) )\n") = .ok (bytesOfString "( (s) )\n") := by
+  constructor <;> decide +kernel
+
+/-- the second pass as a function of the bytes: `reprint` gives the same bytes back -/
+theorem reprint_singleLine (o : Opts) (l : Lang) (f : File) (b : Bytes) (hsl : o.singleLine = true)
+    (hwf : f.wf = true) (hmono : posMono f) (hne : f.stmts ≠ .nil) (hp : printFile o f = .ok b) :
+    reprint o l b = .ok b := by
+  obtain ⟨f', h1, _⟩ := roundtrip_gen o l f b hwf hmono hne hp
+  rw [reprint_of_parse h1]
+  exact idempotent_singleLine o l f f' b hsl hwf hmono hne hp h1
+
 /-! ## Stated, not proved
 
-  Idempotence on the part of F0 that avoids the two recorded shapes.  A definition, not a
-  theorem; checked by execution (`specidem` ops: model and Go code side by side) on every run. -/
+  Idempotence without SingleLine on the part of F0 that avoids the two recorded shapes.  A
+  definition, not a theorem (the layout then depends on the positions the parser assigns, which
+  the proved parser lemmas do not describe); checked by execution (`specidem` ops: model and Go
+  code side by side) on every run. -/
 
 def idempotent_partial_statement : Prop :=
   ∀ (o : Opts) (l : Lang) (f f' : File) (b : Bytes), f.wf = true → posMono f → f.stmts.noParenParen = true →
